@@ -101,3 +101,7 @@ PLANS["C09"]["assumptions"] = SEQ_ASSUME + CONC_ASSUME
 PLANS["C12"]["jobs"] = multi(seq_plan((3000, 12), (150000, 300)), simple("seqmap", (800, 0), (50000, 0)), simple("linzmap", (2500, 0), (100000, 0)), simple("linzcache", (1500, 0), (80000, 0)))
 PLANS["C12"]["assumptions"] = SEQ_ASSUME + CONC_ASSUME
 PLANS["C06"]["jobs"] = multi(seq_plan((3000, 8), (100000, 200)), simple("linzcache", (3000, 0), (150000, 0)), simple("janitor", (1, 0), (20, 0), stripes_q=2), simple("term", (300, 0), (20000, 0), stripes_q=4))
+
+# C10: keys that collide completely must also stay distinct under concurrent use
+PLANS["C10"]["jobs"] = multi(keys_jobs, simple("linzmap", (1500, 0), (60000, 0), stripes_q=4))
+PLANS["C10"]["assumptions"] = PLANS["C10"]["assumptions"] + CONC_ASSUME
